@@ -57,8 +57,12 @@ def simplify_events(maxn):
 
 
 # ---------------------------------------------------------------- requires
-def requires_case(s):
-    """pkg_config(requires=[('dep', S)]) + fake dep at every test version"""
+def requires_case(arg):
+    """pkg_config(<field>=[('dep', S)]) + fake dep at every test version.
+    field: requires | requires_private | both (first specifier public, the
+    rest private: the two lists are combined) | conflicts (next to a plain
+    requires=['dep'], so that pkg-config evaluates the rule)"""
+    s, field = arg
     root = scratch('verif-c17r-')
     try:
         src = os.path.join(root, 'src')
@@ -69,13 +73,21 @@ def requires_case(s):
         open(os.path.join(src, 'build.bfg'), 'w').write(
             "project('p', version='1.0')\n"
             "lib = static_library('foo', ['f.c'])\n"
-            "pkg_config('mypkg', version='1.0', libs=[lib], "
-            "requires=[('dep', %r)])\n" % spec_str(s))
+            "pkg_config('mypkg', version='1.0', libs=[lib], %s)\n" % (
+                "requires=[('dep', %r)]" % spec_str(s)
+                if field == 'requires' else
+                "requires_private=[('dep', %r)]" % spec_str(s)
+                if field == 'requires_private' else
+                "requires=[('dep', %r)], requires_private=[('dep', %r)]" % (
+                    spec_str(s[:1]), spec_str(s[1:])) if field == 'both' else
+                "requires=['dep'], conflicts=[('dep', %r)]" % spec_str(s)))
 
         def dep(v):
             open(os.path.join(pc, 'dep.pc'), 'w').write(
                 'Name: dep\nDescription: d\nVersion: %s\n' % v)
         ok = [p for p in POINTS if all(sat(x, p) for x in s)]
+        if field == 'conflicts':     # configure with a non-conflicting dep
+            ok = [p for p in POINTS if p not in ok]
         dep(vstr(ok[0]) if ok else '1')
         env = tool_env({'CC': os.path.join(BIN, 'stubcc'),
                         'AR': os.path.join(BIN, 'stubar'),
@@ -84,7 +96,8 @@ def requires_case(s):
         rc, out = run(['/venv/bin/bfg9000', 'configure', bld,
                        '--no-resolve-packages', '--backend=make'], cwd=src,
                       env=env)
-        ev = {'ev': 'Requires', 'set': s, 'configure_exit': rc,
+        ev = {'ev': 'Requires', 'set': s, 'field': field,
+              'configure_exit': rc,
               'exists': [False] * len(POINTS),
               'multi': 'multiple specifiers' in out,
               'note': out[-200:] if rc else ''}
@@ -95,9 +108,9 @@ def requires_case(s):
             for p in POINTS:
                 dep(vstr(p))
                 e2['PKG_CONFIG_DISABLE_UNINSTALLED'] = '1'
-                r1, _ = run(['pkg-config', '--exists', 'mypkg'], env=e2)
-                r2, _ = run(['pkg-config', '--exists', 'mypkg-uninstalled'],
-                            env=e2)
+                q = '--libs' if field == 'conflicts' else '--exists'
+                r1, _ = run(['pkg-config', q, 'mypkg'], env=e2)
+                r2, _ = run(['pkg-config', q, 'mypkg-uninstalled'], env=e2)
                 ex.append(r1 == 0 and r2 == 0 if r1 == r2 else None)
             ev['exists'] = [bool(x) for x in ex]
             ev['forms_agree'] = all(x is not None for x in ex)
@@ -287,7 +300,15 @@ def main(argv):
     rnd = random.Random(ck.seed)
     if ck.quick:
         sets2 = rnd.sample(sets2, 60)
-    req = pmap(requires_case, sets2)
+    sets1 = [x for x in all_sets(1) if x]
+    rjobs = [(x, 'requires') for x in sets2]
+    for fld in ('requires_private', 'conflicts'):
+        rjobs += [(x, fld) for x in sets1] + \
+            [(x, fld) for x in rnd.sample(sets2, min(len(sets2), 25 if
+                                                       ck.quick else 400))]
+    rjobs += [(x, 'both') for x in sets2 if len(x) == 2][:25 if ck.quick
+                                                        else 400]
+    req = pmap(requires_case, rjobs)
     fl = pmap(flags_case, flag_cases(ck)) + pmap(shape_case, shape_cases())
     traces, meta = [], []
     for e in evs:
@@ -320,7 +341,9 @@ def main(argv):
             what = 'simplify_specifiers(%r) -> %s' % (
                 spec_str(s), 'raised' if e['raised'] else e.get('result'))
         elif e['ev'] == 'Requires':
-            key = 'C17:requires:%s:%s' % (info[0], spec_str(e['set']))
+            key = 'C17:%s:%s:%s' % (e['field'], info[0], spec_str(e['set']))
+            if e['field'] == 'conflicts' and len(e['set']) > 1:
+                key = 'C17:conflicts:%s:several-specifiers' % info[0]
             what = 'requires=%r: configure exit %d, exists %r %s' % (
                 spec_str(e['set']), e['configure_exit'], e['exists'],
                 e.get('note', ''))
